@@ -499,7 +499,7 @@ def main(argv):
     pid = argv[1]
     tier = os.environ.get("VERIF_TIER", "quick")
     seed = int(os.environ.get("VERIF_SEED", "0") or 0)
-    only, keep, jobs, replay = [], False, int(os.environ.get("VERIF_JOBS", "8")), None
+    only, keep, jobs, replay = [], False, int(os.environ.get("VERIF_JOBS", "12")), None
     i = 2
     while i < len(argv):
         a = argv[i]
